@@ -140,13 +140,26 @@ theorem refines_render {ι : Type} (h : Heap) (anc : List Nat) (pre post : Strin
   rw [run_bind, refines_seqP h anc xs f g hl hc hr s hs]
   cases collect (xs.map g) <;> simp [joinSep_eq]
 
+theorem refines_bind_done {h : Heap} {anc : List Nat} {p : Prog Out} {o : Out} (f : Out → Out)
+    (hr : Refines h anc p o) : Refines h anc (p.bind fun r => .done (f r)) (f o) := by
+  intro s hs
+  rw [run_bind, hr s hs]; rfl
+
+theorem refines_tolerate {h : Heap} {anc : List Nat} (tol : Bool) {inner : Prog Out} {o : Out}
+    (hr : Refines h anc inner o) :
+    Refines h anc (tolerate tol inner) (if tol then swallow o else o) := by
+  unfold tolerate
+  cases tol with
+  | true => exact refines_bind_done swallow hr
+  | false => exact hr
+
 /-! ### fragments -/
 
 /-- the fragment `_make_repr_script` emits for a repr-enabled field -/
 def toFrag (a : Field) : Frag :=
   { name := a.name, viaGetattr := !a.init,
     fmt := match a.repr with
-      | .call t r f => .callG t r f
+      | .call t r f c => .callG t r f c
       | _ => .bangR }
 
 /-- the generated fragments are those of the repr-enabled fields, in field order -/
@@ -160,9 +173,9 @@ theorem genFrags_eq (fs : List Field) : genFrags fs = (fs.filter enabled).map to
 
 theorem refines_callRepr {h : Heap} {anc : List Nat} (armed : Bool) (tag : String) (rc : Bool)
     (fault : Fault) {inner : Prog Out} {o : Out} (hr : Refines h anc inner o) :
-    Refines h anc (callRepr armed tag rc fault inner) (showWith armed (.call tag rc fault) o) := by
+    Refines h anc (callRepr armed tag rc fault inner) (showCall armed tag rc fault o) := by
   intro s hs
-  unfold callRepr showWith
+  unfold callRepr showCall
   by_cases h1 : (armed && fault == .pre) = true
   · simp [h1]
   · simp only [h1, Bool.false_eq_true, if_false]
@@ -191,7 +204,7 @@ theorem refines_evalFrag {h : Heap} {anc : List Nat} (rec : Nat → Prog Out) (s
     cases rp with
     | on => simpa [showWith] using hr i
     | off => simp [enabled] at he
-    | call t r f => exact refines_callRepr armed t r f (hr i)
+    | call t r f c => exact refines_callRepr armed t r f (refines_tolerate c (hr i))
   | none =>
     cases init with
     | true => intro s _; simp
@@ -200,7 +213,7 @@ theorem refines_evalFrag {h : Heap} {anc : List Nat} (rec : Nat → Prog Out) (s
       cases rp with
       | on => simpa [showWith] using hin
       | off => simp [enabled] at he
-      | call t r f => exact refines_callRepr armed t r f hin
+      | call t r f c => exact refines_callRepr armed t r f (refines_tolerate c hin)
 
 /-! ### the two guards -/
 
@@ -269,11 +282,6 @@ theorem refines_guarded {h : Heap} {anc : List Nat} (id : Nat) (dots : String)
     rw [run_guarded_miss id dots body s hcg, hn]
     have hs1 : Sim h (id :: anc) { s with guard := id :: s.guard } := sim_push_cont hs hi rfl rfl
     simp [hr _ hs1]
-
-theorem refines_bind_done {h : Heap} {anc : List Nat} {p : Prog Out} {o : Out} (f : Out → Out)
-    (hr : Refines h anc p o) : Refines h anc (p.bind fun r => .done (f r)) (f o) := by
-  intro s hs
-  rw [run_bind, hr s hs]; rfl
 
 /-! ### the main refinement -/
 
